@@ -48,7 +48,10 @@ pub struct SimCfg {
     pub rc: u32,
     pub mech: Mech,
     pub user: String,
+    /// the OpaqueString-enforced password: what keys must be derived from (all oracles use this)
     pub password: String,
+    /// the password as the application hands it to the client (may differ from the enforced form)
+    pub password_raw: String,
     pub fingerprint: bool,
     pub max_transactions: usize,
 }
@@ -258,10 +261,10 @@ impl Sim {
             Mech::None => {}
             Mech::ShortTerm(i) => {
                 let integ = i.map(|sha| if sha { Integrity::MessageIntegritySha256 } else { Integrity::MessageIntegrity });
-                b = b.with_mechanism(cfg.user.clone(), cfg.password.clone(), CredentialMechanism::ShortTerm(integ));
+                b = b.with_mechanism(cfg.user.clone(), cfg.password_raw.clone(), CredentialMechanism::ShortTerm(integ));
             }
             Mech::LongTerm => {
-                b = b.with_mechanism(cfg.user.clone(), cfg.password.clone(), CredentialMechanism::LongTerm);
+                b = b.with_mechanism(cfg.user.clone(), cfg.password_raw.clone(), CredentialMechanism::LongTerm);
             }
         }
         if cfg.fingerprint {
